@@ -11,7 +11,11 @@ Tie:   the real library runs client programs with statically known action lists;
        the recorded (count, state) pairs, the virtual times and the results.
 Oracle (property text only): the same (program, seed, configuration) is run (a) twice in one process, (b) in a fresh
        process, (c) restored from every recorded (GetFaultRandomCount(), GetInjectorState()) pair; traces must be
-       identical (fiber ids up to renaming by first appearance, virtual times up to the offset of the clock)."""
+       identical (fiber ids up to renaming by first appearance, virtual times up to the offset of the clock).
+       The allocation history of every second / fresh / restored run is PERTURBED (h_c17 --perturb: blocks of fiber-object
+       size are allocated and freed in a seeded random order first, so fiber objects get addresses unrelated to their
+       creation order), and many programs let several fibers sleep until ONE common absolute deadline, entered in an
+       order that differs from the creation order: a wake-up order that depends on addresses diverges."""
 import concurrent.futures, json, os, random, re, subprocess
 import vlib, runner
 
@@ -37,8 +41,14 @@ def gen_body(rng, st, depth, allow_untimed):
             ops.append(("w",))
         elif r < 0.40:
             ops.append(("y",))
-        elif r < 0.50:
+        elif r < 0.47:
             ops.append(("s", rng.choice([1, 5, 10, 17, 30, 64, 100, 150])))
+        elif r < 0.52 and st.get("D"):
+            # sleep until a deadline that other fibers of this phase use too (they enter the sleep in scheduling order)
+            if rng.random() < 0.7:
+                ops.append(("S", rng.choice(st["D"])))
+            else:
+                ops.append(("U", rng.randrange(2), rng.choice(st["D"])))
         elif r < 0.68:
             m = rng.randrange(3)
             ops.append(("l", m))
@@ -57,7 +67,10 @@ def gen_body(rng, st, depth, allow_untimed):
                 elif k == "N":
                     ops.append(("N", rng.randrange(2)))
                 elif k == "t":
-                    ops.append(("t", rng.randrange(2), m, rng.choice([1, 8, 25, 60, 120])))
+                    if st.get("D") and rng.random() < 0.3:
+                        ops.append(("T", rng.randrange(2), m, rng.choice(st["D"])))
+                    else:
+                        ops.append(("t", rng.randrange(2), m, rng.choice([1, 8, 25, 60, 120])))
                 elif k == "c":
                     ops.append(("c", rng.randrange(2), m))
             ops.append(("u", m))
@@ -89,6 +102,10 @@ def gen_program(rng, phases, allow_untimed=False, detach=False):
     for ph in range(phases):
         if ph:
             ops.append(("p",))
+        common = rng.random() < 0.6
+        st["D"] = rng.sample([120, 250, 400, 800], rng.randint(1, 2)) if common else None
+        if common:
+            ops.append(("e",))          # epoch = now(); S/U/T deadlines are epoch + D
         kids = []
         for _ in range(rng.randint(1, 4)):
             sl = st["slot"]
@@ -118,7 +135,7 @@ def to_text(ops):
     out = []
     for o in ops:
         k = o[0]
-        if k in "awyp":
+        if k in "awype":
             out.append(k)
         elif k == "f":
             out.append("f%d(%s)" % (o[1], to_text(o[2])))
@@ -133,6 +150,8 @@ def to_coq(ops):
         k = o[0]
         out.append({
             "a": lambda: "CAtomic", "w": lambda: "CCasW", "y": lambda: "CYield", "p": lambda: "CPhase",
+            "e": lambda: "CEpoch", "S": lambda: "CSleepUntil %d" % o[1], "U": lambda: "CQWaitUntil %d %d" % (o[1], o[2]),
+            "T": lambda: "CCvWaitUntil %d %d %d" % (o[1], o[2], o[3]),
             "s": lambda: "CSleep %d" % o[1], "l": lambda: "CLock %d" % o[1], "u": lambda: "CUnlock %d" % o[1],
             "c": lambda: "CCvWait %d %d" % (o[1], o[2]), "t": lambda: "CCvWaitFor %d %d %d" % (o[1], o[2], o[3]),
             "n": lambda: "CCvNotifyOne %d" % o[1], "N": lambda: "CCvNotifyAll %d" % o[1],
@@ -166,6 +185,14 @@ HAND_PROGRAMS = [
     ("sleepers", "f0(s100 a)f1(s100 a)f2(s40 a s60 a)f3(s1 s1 s1) s500 j0 j1 j2 j3"),
     # a fiber parked for ever: the run loop returns with the driver blocked in join
     ("parked", "f0(q1 a)f1(a a) j1 j0"),
+    # several fibers sleep until ONE common absolute deadline; they enter the sleep in the reverse of their creation
+    # order (insertion order into the bucket != creation order != address order); a bare-queue and a condition-variable
+    # wait with the same deadline join them when the extra delay is 0 (sleep time 1)
+    ("until", "e f0(s50 S500 a) f1(s30 S500 a) f2(s10 S500 a) f3(U0,500) f4(l0 T0,0,500 u0) s900 j0 j1 j2 j3 j4"),
+    ("until-many", "e f0(a a a S300 a) f1(a S300 a) f2(S300 a) f3(a a S300 w) f4(y S300 a) f5(y y S300) f6(s5 S300 a) s700 j0 j1 j2 j3 j4 j5 j6"),
+    # sleep_for calls that end at the same instant (durations chosen against the tick) next to sleep_until
+    ("until-for", "e f0(S200 a) f1(s10 S200 a) f2(y S200) s40 s40 s40 s40 s500 j0 j1 j2"),
+    ("until-phases", "e f0(s40 S300 a) f1(S300 a) f2(s20 S300) j0 j1 j2 p e f3(s60 S400 a) f4(s20 S400 a) f5(S400 w) j3 j4 j5 p e f6(a S200) f7(S200 a) f8(y S200 a) j6 j7 j8"),
     # phases with checkpoints
     ("phases", "f0(a w a)f1(a s30 a) a w j0 j1 p f2(l0 a u0 w)f3(l0 w u0) y j2 j3 p f4(Q1,20)f5(s10 k1) j4 j5 p a w a"),
 ]
@@ -178,6 +205,12 @@ FIXED_CASES = [
     ("fixed/stalebucket-1", "f0(Q0,15) y K0 s200 j0", dict(seed=1, freq=1000, cas=0, pick=10, tick=10, slpt=1), "main"),
     ("fixed/stalebucket-4", "f0(Q0,15) y K0 s200 j0", dict(seed=4, freq=1000, cas=0, pick=10, tick=10, slpt=1), "main"),
     # two timed waiters with the same deadline, both notified early (the second one finds its bucket already erased)
+    ("fixed/until-slpt1-a", "e f0(s50 S500 a) f1(s30 S500 a) f2(s10 S500 a) f3(U0,500) f4(l0 T0,0,500 u0) s900 j0 j1 j2 j3 j4",
+     dict(seed=5, freq=1000, cas=0, pick=10, tick=10, slpt=1), "main"),
+    ("fixed/until-slpt1-b", "e f0(s50 U1,400 a) f1(s30 S400 a) f2(s10 U1,400 a) f3(S400 a) f4(s20 l0 T0,0,400 u0) s900 j0 j1 j2 j3 j4",
+     dict(seed=11, freq=3, cas=2, pick=2, tick=10, slpt=1), "driver"),
+    ("fixed/until-phases", "e f0(s40 S300 a) f1(S300 a) f2(s20 S300) j0 j1 j2 p e f3(s60 S400 a) f4(s20 S400 a) f5(S400 w) j3 j4 j5",
+     dict(seed=9, freq=1000, cas=0, pick=10, tick=10, slpt=1), "driver"),
     ("fixed/samebucket", "f0(Q0,30) f1(Q0,30) y y K0 s200 j0 j1", dict(seed=3, freq=1000, cas=0, pick=10, tick=10, slpt=1), "main"),
 ]
 
@@ -203,14 +236,14 @@ def parse_text(text):
             if ch == ")":
                 break
             pos += 1
-            if ch in "awyp":
+            if ch in "awype":
                 out.append((ch,))
-            elif ch in "slunNqkKjd":
+            elif ch in "sSlunNqkKjd":
                 out.append((ch, num()))
-            elif ch in "cQ":
+            elif ch in "cQU":
                 a = num(); pos += 1; b = num()
                 out.append((ch, a, b))
-            elif ch == "t":
+            elif ch in "tT":
                 a = num(); pos += 1; b = num(); pos += 1; c = num()
                 out.append((ch, a, b, c))
             elif ch == "f":
@@ -389,6 +422,7 @@ def main(ck):
         "libstdc++'s std::mt19937_64 and its seeding are outside YACLib: the model takes the engine's outputs as a Section variable `draws`; the check feeds it the outputs of an independent std::mt19937_64(seed)",
         "ucontext switching, stack allocation and the client programs' own determinism (no addresses, wall clock, hash order in the clients) are outside the model; any such dependence inside the fault layer shows up as a divergence",
         "the recorder only observes: gHooks.resume and a gHooks.choose that returns -1 for every request (the library's engine decides everything)",
+        "the harness never frees memory during a run (pointer-CAS retries of the clients must not depend on address reuse); the second run of a process, the fresh process and every restored run start from a seeded perturbation of the allocation history (fiber objects then have addresses in an order unrelated to their creation order)",
         "seeding / restoring are done inside the driver fiber (place=driver) or on the main thread before it starts (place=main); a restore is always made inside the driver fiber, the only place where `continue from that point' is meaningful (starting a driver consumes a draw)",
     ]
     ck.cov["trusted_base"] = [
@@ -423,8 +457,12 @@ def main(ck):
 
     def run_case(c):
         base = ["--prog", to_text(c["ops"]), "--label", c["name"], "--place", c["place"]] + cfg_args(c["cfg"])
-        args = base + ["--runs", "2"]
+        pk = 1 + (c["cfg"]["seed"] * 31 + len(c["name"])) % 100000
+        c["pk"] = pk
+        # the second run of the process and the fresh process start from a perturbed allocation history
+        args = base + ["--runs", "2", "--perturb", str(pk), "--perturb-from", "1"]
         rows, out, err, rc = run_h(exe, args)
+        base = base + ["--perturb", str(pk + 7)]
         c["args"], c["base"], c["rows"], c["rc"], c["out"], c["err"] = args, base, rows, rc, out, err
         rows2, out2, err2, rc2 = run_h(exe, base)      # a fresh process
         c["rows_fresh"], c["rc_fresh"], c["out_fresh"] = rows2, rc2, out2
@@ -512,7 +550,8 @@ def main(ck):
     def run_restore(job):
         c, cp = job
         args = ["--prog", to_text(c["ops"]), "--label", c["name"], "--place", c["place"], "--rplace", "driver",
-                "--from", str(cp["phase"]), "--count", str(cp["count"]), "--state", str(cp["state"])] + cfg_args(c["cfg"])
+                "--from", str(cp["phase"]), "--count", str(cp["count"]), "--state", str(cp["state"]),
+                "--perturb", str(c["pk"] + 13 + cp["phase"])] + cfg_args(c["cfg"])
         rows, out, err, rc = run_h(exe, args)
         return c, cp, args, rows, rc, out, err
 
@@ -655,7 +694,7 @@ def main(ck):
         ck.broken.append(dict(name="correspondence Sched.run vs implementation", detail="no traces"))
 
     # ---------------------------------------------------------------- B. real clients: oracle only
-    clients = ["pool", "strand", "timed", "coro", "mix"]
+    clients = ["pool", "strand", "timed", "coro", "until", "mix"]
     n_cl = 12 if quick else 150
     ccfgs = configs(rng, n_cl, loops=True)
     cl_cases = [dict(client=clients[i % len(clients)], size=rng.randint(0, 3), cfg=ccfgs[i],
@@ -663,8 +702,11 @@ def main(ck):
 
     def run_client(c):
         base = ["--client", c["client"], "--size", str(c["size"]), "--place", c["place"]] + cfg_args(c["cfg"])
-        a2 = base + ["--runs", "2"] + (["--same-sched"] if c["same_sched"] else [])
+        pk = 1 + (c["cfg"]["seed"] * 17 + c["size"]) % 100000
+        a2 = base + ["--runs", "2", "--perturb", str(pk), "--perturb-from", "1"] + (["--same-sched"] if c["same_sched"] else [])
         rows, out, err, rc = run_h(exe, a2)
+        plain = base
+        base = base + ["--perturb", str(pk + 7)]
         rows_f, out_f, err_f, rc_f = run_h(exe, base)
         c.update(base=base, a2=a2, rows=rows, rc=rc, rows_f=rows_f, rc_f=rc_f, err=err or out)
         rest = []
@@ -673,7 +715,8 @@ def main(ck):
             if quick:
                 cps = cps[:2]
             for cp in cps:
-                a3 = base + ["--rplace", "driver", "--from", str(cp["phase"]), "--count", str(cp["count"]), "--state", str(cp["state"])]
+                a3 = plain + ["--rplace", "driver", "--from", str(cp["phase"]), "--count", str(cp["count"]), "--state", str(cp["state"]),
+                              "--perturb", str(pk + 13 + cp["phase"])]
                 r3, o3, e3, rc3 = run_h(exe, a3)
                 rest.append((cp, a3, r3, rc3, e3 or o3))
         c["restored"] = rest
@@ -710,7 +753,7 @@ def main(ck):
             i_full = next(i for i, t in enumerate(t0) if t.startswith(mark))
             i_res = next(i for i, t in enumerate(rt) if t.startswith(mark))
             if compare_pair("(c) restored from (count=%d, state=%d) recorded at phase %d" % (cp["count"], cp["state"], cp["phase"]),
-                            "restore-absolute-count", label, t0, i_full, rt, i_res, [cmdline(exe, c["base"]), cmdline(exe, a3)]):
+                            "restore-absolute-count", label, t0, i_full, rt, i_res, [cmdline(exe, c["a2"]), cmdline(exe, a3)]):
                 oracle_pairs["restored"] += 1
         if nontrivial_tokens(t0):
             client_distinct.add(" ".join(canon_segment(t0, 0)))
@@ -730,13 +773,19 @@ def main(ck):
                               runs_ending_with_parked_fibers=n_parked, library_crashes_predicted_by_model=crash_predicted,
                               client_runs=client_runs,
                               distinct_client_traces=len(client_distinct))
+    def has_common(ops):
+        return any(o[0] in "SUT" or (o[0] == "f" and has_common(o[2])) for o in ops)
+    ck.cov["observed"]["programs_with_fibers_sleeping_until_one_common_deadline"] = sum(1 for c in cases if has_common(c["ops"]))
+    ck.cov["allocation_history_perturbed"] = ("yes: --perturb <k> before the second in-process run, in the fresh process and in every "
+                                              "restored run (DSL programs and real clients); the original run is unperturbed")
     ck.cov["exhaustive"] = False
     ck.cov["rule"] = ("the library's own seeded engine takes every decision (nothing is explored); inputs are (program, seed, "
                       "fault frequency, CAS-failure frequency, pick width, tick length, sleep time) tuples drawn from ck.seed: "
                       "6 hand-written + random DSL programs (1-3 phases, up to ~12 fibers: atomics, weak CAS, yields, sleeps, mutex "
                       "sections, condition-variable waits/timed waits/notifies, bare FiberQueue waits, nested spawn/join/detach) "
-                      "and 5 real clients (FairThreadPool jobs, Strand, WaitFor + condition_variable::wait_for, coroutines with "
-                      "yaclib::Mutex, mix); each run twice in a process, in a fresh process and restored from every recorded "
+                      "and 6 real clients (FairThreadPool jobs, Strand, WaitFor + condition_variable::wait_for, coroutines with "
+                      "yaclib::Mutex, threads sleeping until one common deadline, mix); sleep_until / wait_until on a common absolute "
+                      "deadline (epoch + D) in the DSL; perturbed allocation history in all second/fresh/restored runs; each run twice in a process, in a fresh process and restored from every recorded "
                       "pair; distinct non-trivial = distinct canonical token sequences with >= 3 resumes of >= 2 fibers")
     ck.cov["samples"] = [dict(program=to_text(m["case"]["ops"]), config=m["case"]["cfg"], place=m["case"]["place"],
                               what=m["what"], trace=" ".join(m["tokens"][:60]))
